@@ -18,11 +18,12 @@ pub static PROP: Prop = Prop {
     fixed,
     replay: Some(replay),
     breadcrumb: false,
+    fuzz: &[Fuzz { target: "roundtrip", choice: false, runs: 1000000, max_len: 400 }, Fuzz { target: "choice", choice: true, runs: 300000, max_len: 640 }],
 };
 
 fn budget(t: Tier) -> Budget {
     Budget {
-        cases: t.pick(300_000, 6_000_000),
+        cases: t.pick(3_000_000, 40_000_000),
         max_len: 160,
         shards: 16,
         dual_profile: false,
